@@ -434,8 +434,9 @@ def classify(py_ans, rs_ans):
     for fl in flags:
         if fl in PY_OUTSIDE:
             return 'outside', 'python: ' + fl
-        if fl.startswith('exc:'):
-            return 'outside', 'python crashed: ' + fl[4:]
+    crashed = [fl[4:] for fl in flags if fl.startswith('exc:')]
+    if crashed and crashed[0] in ('RecursionError',):
+        return 'outside', 'python crashed: ' + crashed[0]
     if rs_ans == 'PANIC':
         return 'outside', 'rust: panic (u64 overflow)'
     rf = rs_ans.split('|')
@@ -444,6 +445,10 @@ def classify(py_ans, rs_ans):
     rk, rmk, rr, rb = rf
     if rk in ('cfglim', 'mulrul'):
         return 'outside', 'rust: ' + rk
+    if crashed:
+        # an exception that is none of the runner's declared limits is not "the same outcome" (added after the self-test
+        # sweep: a mutant raising TypeError inside EnumTape.check_offsets was silently counted as outside the quantifier)
+        return 'diff', f'Python raised {crashed[0]} (not one of its declared limits); Rust answers {rk}'
     if pk != rk:
         return 'diff', f'outcome kind: Python {pk}, Rust {rk}'
     if pmk != rmk:
